@@ -144,7 +144,7 @@ class Builder:
         u = self.u
         out = ['/* GENERATED by /verif/check from %s and the AST of %s -- do not edit */' % (
             os.path.relpath(u.path, os.path.dirname(os.path.dirname(u.path))), u.tu)]
-        out.append('#define VERIF_MODE_%s 1' % {'SA': 'SA', 'SAI': 'SAI', 'BV': 'BV', 'BVN': 'BV'}[mode])
+        out.append('#define VERIF_MODE_%s 1' % {'SA': 'SA', 'SAI': 'SAI', 'BV': 'BV', 'BVN': 'BV', 'BVU': 'BV'}[mode])
         if mode == 'BVN':
             out.append('#define VERIF_NONNEG_DIV 1')
         out += list(extra_defs)
